@@ -114,8 +114,36 @@ def ev_from_data(ident: int, c: Case) -> dict:
                 'rerun': 'T'}
     out = outcome(pane.from_data, c.val, c.ty)
     out2 = outcome(pane.from_data, c.val, c.ty)
-    return {'id': ident, 'op': 'from_data', 'ty': c.T, 'val': c.v, 'out': out,
-            'rerun': 'T' if out == out2 else 'F'}
+    e = {'id': ident, 'op': 'from_data', 'ty': c.T, 'val': c.v, 'out': out,
+         'rerun': 'T' if out == out2 else 'F'}
+    if _is_pane_class(c):
+        e['alt'] = outcome(c.ty.from_data, c.val)        # the classmethod spelling of the same call
+    return e
+
+
+def _is_pane_class(c: Case) -> bool:
+    return c.T['k'] == 'cls' and isinstance(c.ty, type) and issubclass(c.ty, pane.PaneBase)
+
+
+def ev_from_json(ident: int, c: Case) -> dict:
+    """C04: the same conversion reached through pane.io.from_json: the value is written with the standard
+    library's json module, read by pane; the event carries the value as json reads it back."""
+    import io as _io
+    import json as _json
+    from pane import io as pio
+    if c.bf is not None:
+        raise OutOfVocab('converter cannot be built')
+    try:
+        txt = _json.dumps(c.val, allow_nan=False)
+        v2 = _json.loads(txt)
+        av2 = abstract(v2)
+    except (TypeError, ValueError, OverflowError, RecursionError):
+        raise OutOfVocab('not a JSON value')
+    out = outcome(lambda: pio.from_json(_io.StringIO(txt), c.ty))
+    e = {'id': ident, 'op': 'from_data', 'ty': c.T, 'val': av2, 'out': out, 'rerun': 'T', 'api': 'from_json'}
+    if _is_pane_class(c):
+        e['alt'] = outcome(lambda: c.ty.from_jsons(txt))
+    return e
 
 
 def rerun_reverse(events: list, cases: dict) -> None:
@@ -427,6 +455,8 @@ def ev_roundtrip(ident: int, c: Case) -> dict:
     e['x'] = _proj(x)
     d = _call(pane.into_data, x, c.ty)
     e['d'] = d[0]
+    if _is_pane_class(c) and isinstance(x, pane.PaneBase):
+        e['dm'] = _call(x.into_data)[0]                  # the method spelling of the same call
     e['x2'] = e['d2'] = no
     if d[0]['k'] == 'ok':
         x2 = _call(pane.from_data, d[1], c.ty)
@@ -468,6 +498,8 @@ def ev_fixpoint(ident: int, c: Case) -> dict:
     e['have'] = 'T'
     e['ser'] = _call(pane.into_data, x)[0]      # the value's own serialised form (what convert() parses)
     e['out'] = outcome(pane.convert, x, c.ty)
+    if _is_pane_class(c):
+        e['obj'] = outcome(c.ty.from_obj, x)             # the classmethod spelling of convert(x, Cls)
     try:
         native = native_copy(x)            # rebuilt natively: not an object pane produced
         e['nat'] = outcome(pane.convert, native, c.ty)
